@@ -278,6 +278,9 @@ func c15Record(tier string, seed int64, emit func(interface{})) {
 		if rng.Intn(4) == 0 {
 			ws = append(ws, []string{"café", "µ-opioid", "日本語", "naïve – dash", "α/β"}[rng.Intn(5)])
 		}
+		if rng.Intn(4) == 0 { // characters JSON has to escape, and text that looks like an escape
+			ws = append(ws, []string{"a\\b", "say \"hi\"", "<1..>200", "R&D", "\\u003c", "\\u0026amp;", "tab\there", "two\nlines", "\\n", "{\"k\":[1]}", "\\\\", "\u0001", "\\"}[rng.Intn(13)])
+		}
 		return strings.Join(ws, " ")
 	}
 	for i := 0; i < n; i++ {
@@ -393,7 +396,7 @@ func c15Record(tier string, seed int64, emit func(interface{})) {
 		for j := 0; j < rng.Intn(10); j++ {
 			a := rng.Intn(ln)
 			f := poly.Feature{Name: "chr", Source: "src", Type: "gene", Score: ".", Strand: "+", Phase: ".", Attributes: map[string]string{"ID": fmt.Sprint("f", j), "Note": text(4)}}
-			f.Attributes["Note"] = strings.NewReplacer(";", ",", "=", "-", "\t", " ").Replace(f.Attributes["Note"])
+			f.Attributes["Note"] = strings.NewReplacer(";", ",", "=", "-", "\t", " ", "\n", " ").Replace(f.Attributes["Note"])
 			f.SequenceLocation = poly.Location{Start: a, End: a + 1 + rng.Intn(ln-a)}
 			q.AddFeature(&f)
 		}
